@@ -646,9 +646,9 @@ class SR:
             if op == "mul":
                 return SR(a * b)
             if b == 0:
-                if ctx().mode == "sym" or True:
-                    _def_fail("div", "division by zero (concrete)")
-                return math.nan
+                # both operands concrete: IEEE result as numpy gives it (0/0 -> nan, x/0 -> +-inf); whether a
+                # non-finite value reaches a result is decided by the finiteness obligations
+                return math.nan if a == 0 else (math.inf if a > 0 else -math.inf)
             return SR(a / b)
         if op == "mul":
             if a is not None and a == 0 or b is not None and b == 0:
